@@ -8,7 +8,7 @@ use pie::tracker::Tracker;
 use pie::trait_object::{KeyObj, ValueObj};
 
 use crate::prog::*;
-use crate::world::{log, Ev, OCh, RCh, VRes, VTask};
+use crate::world::{log, nest_enter, nest_exit, Ev, OCh, RCh, VRes, VTask};
 
 /// Result of a resource check as seen by the tracker: Ok(None) consistent, Ok(Some(debug)) inconsistent, Err(text).
 pub type ResCheck = Result<Option<String>, String>;
@@ -103,9 +103,11 @@ impl Tracker for Rec {
   fn build_start(&mut self) { self.push(TrkEv::BuildStart); }
   fn build_end(&mut self) { self.push(TrkEv::BuildEnd); }
   fn require_start(&mut self, task: &dyn KeyObj, checker: &dyn ValueObj) {
+    if self.to_log { nest_enter(); }
     self.push(TrkEv::RequireStart(tid_of(task), oc_of(checker)));
   }
   fn require_end(&mut self, task: &dyn KeyObj, checker: &dyn ValueObj, stamp: &dyn ValueObj, output: &dyn ValueObj) {
+    if self.to_log { nest_exit(); }
     self.push(TrkEv::RequireEnd(tid_of(task), oc_of(checker), ostamp_of(stamp), out_of(output)));
   }
   fn read_start(&mut self, resource: &dyn KeyObj, checker: &dyn ValueObj) {
@@ -121,9 +123,11 @@ impl Tracker for Rec {
     self.push(TrkEv::WriteEnd(rid_of(resource), rc_of(checker), rstamp_of(stamp)));
   }
   fn check_task_start(&mut self, task: &dyn KeyObj, checker: &dyn ValueObj, stamp: &dyn ValueObj) {
+    if self.to_log { nest_enter(); }
     self.push(TrkEv::CheckTaskStart(tid_of(task), oc_of(checker), ostamp_of(stamp)));
   }
   fn check_task_end(&mut self, task: &dyn KeyObj, checker: &dyn ValueObj, stamp: &dyn ValueObj, inconsistency: Option<&dyn Debug>) {
+    if self.to_log { nest_exit(); }
     self.push(TrkEv::CheckTaskEnd(tid_of(task), oc_of(checker), ostamp_of(stamp), inc(inconsistency)));
   }
   fn check_resource_start(&mut self, resource: &dyn KeyObj, checker: &dyn ValueObj, stamp: &dyn ValueObj) {
